@@ -49,7 +49,8 @@ def nontrivial(prop, tr):
     ks = [ev["f"].get("k") for ev in tr if ev["e"] == "rx"]
     calls = [ev["c"]["a"] for ev in tr if ev["e"] == "call"]
     if prop == "C01":
-        return "EncryptionResponse" in ks
+        # ... or the Encryption Request was sent and the client deviates instead of answering it (whatever it sends there, nothing is granted)
+        return "EncryptionResponse" in ks or any(ev["e"] == "tx" and ev["p"].get("k") == "EncryptionRequest" for ev in tr)
     if prop == "C02":
         return "LoginCookieResponse" in ks
     if prop == "C03":
